@@ -4,7 +4,7 @@
    commit a050122, SpellCheck's word cache, any eviction).  The statements quantify over every rule set
    (pattern_rel, struct_pre, struct_post), every suggestion function, every configuration / token-kind type and
    hash, every history and every eviction schedule. *)
-Require Import Base Overlap Cache CacheProofs C05Entry C05EntryProofs C05Lru C05LruProofs C05Thread C05ThreadProofs Tables_c05statics.
+Require Import Base Overlap Cache CacheProofs C05Entry C05EntryProofs C05Lru C05LruProofs C05Thread C05ThreadProofs C05Life C05LifeProofs C05EdProofs Tables_c05statics.
 
 (* `chunk.span()` (minimum and maximum over the starts and ends of the chunk's tokens, Span::new) never panics *)
 Theorem C05_hull_total : forall (kind : Type) (ts : list (tok kind)), exists o : option span, hull_of ts = Ok o.
@@ -671,3 +671,107 @@ Example C05_edit_distance_long_nonvacuous :
   c05_u8_row_threshold < length (repeat 97%N 255) /\
   (do '(d, b) <- drv_ed (repeat 97%N 255) (repeat 97%N 250 ++ [98; 98]%N) ([1; 2]%N, [3]%N); Ok (d, b)) = Ok (5%N, ([1; 2]%N, [3]%N)).
 Proof. split; [vm_compute; reflexivity|vm_compute; reflexivity]. Qed.
+
+(* ---------- phase 5: the hash hypotheses PER LIFETIME of the LintGroup (Model/C05Life.v, Proofs/C05LifeProofs.v) ---------- *)
+(* ONE LIFETIME on an entry point, from ANY state: the caches are empty or the first operation is a rebuild (the
+   state may then hold the caches of an earlier lifetime, keyed by ANOTHER hash function; the ignore list is
+   arbitrary).  If the two hashes of THIS lifetime are injective on the triples of THIS history: no panic, the
+   answers are the cache-free specification from the abstract state, the abstract state is tracked *)
+Theorem C05_entry_lifetime_refinement : forall (cfg kind dict : Type) (cfg_hash : cfg -> N) (tok_hash : list (tok kind) -> N) (fill : cfg -> cfg) (pattern_rel : dict -> text -> list (tok kind) -> cfg -> list clint) (struct_pre struct_post : dict -> cfg -> doc kind -> list clint) (spell_on : cfg -> bool) (suggest : dict -> text -> list text) (spell_mk : text -> span -> list text -> clint) (ctx : doc kind -> clint -> N) (e : entry) (h : list (eop cfg kind dict)) (st : estate cfg dict), caches_empty cfg dict st \/ starts_erebuild cfg kind dict h -> ehist_wf cfg kind dict h -> hash_inj_on cfg kind cfg_hash (ehist_triples cfg kind dict fill h (st_cfg (e_lg st))) -> tok_hash_inj_on cfg kind tok_hash (ehist_triples cfg kind dict fill h (st_cfg (e_lg st))) -> exists st' : estate cfg dict, run_ehist cfg kind dict cfg_hash tok_hash fill pattern_rel struct_pre struct_post spell_on suggest spell_mk ctx e h st = Ok (st', espec_hist cfg kind dict fill pattern_rel struct_pre struct_post spell_on suggest spell_mk ctx e h (abs_of cfg dict st)) /\ abs_of cfg dict st' = abs_after cfg kind dict ctx h (abs_of cfg dict st).
+Proof. exact lifetime_refinement. Qed.
+Check C05_entry_lifetime_refinement : forall (cfg kind dict : Type) (cfg_hash : cfg -> N) (tok_hash : list (tok kind) -> N) (fill : cfg -> cfg) (pattern_rel : dict -> text -> list (tok kind) -> cfg -> list clint) (struct_pre struct_post : dict -> cfg -> doc kind -> list clint) (spell_on : cfg -> bool) (suggest : dict -> text -> list text) (spell_mk : text -> span -> list text -> clint) (ctx : doc kind -> clint -> N) (e : entry) (h : list (eop cfg kind dict)) (st : estate cfg dict), caches_empty cfg dict st \/ starts_erebuild cfg kind dict h -> ehist_wf cfg kind dict h -> hash_inj_on cfg kind cfg_hash (ehist_triples cfg kind dict fill h (st_cfg (e_lg st))) -> tok_hash_inj_on cfg kind tok_hash (ehist_triples cfg kind dict fill h (st_cfg (e_lg st))) -> exists st' : estate cfg dict, run_ehist cfg kind dict cfg_hash tok_hash fill pattern_rel struct_pre struct_post spell_on suggest spell_mk ctx e h st = Ok (st', espec_hist cfg kind dict fill pattern_rel struct_pre struct_post spell_on suggest spell_mk ctx e h (abs_of cfg dict st)) /\ abs_of cfg dict st' = abs_after cfg kind dict ctx h (abs_of cfg dict st).
+Print Assumptions C05_entry_lifetime_refinement.
+
+(* THE WORLD OVER LIFETIMES.  `cfg_hash s`, `tok_hash s` are the hash functions of the RandomState a LintGroup
+   instance draws (seed s); a history is a list of segments (seed, operations with thread ids), run one after the
+   other on the same world (C05Life.wrun_segs).  Hypotheses `segs_hyp`: every segment but the first starts with a
+   rebuild (WRebuild or ERebuild: new LintGroup = empty caches + new seed); the documents can be built; and the two
+   hashes of segment i's seed are injective on the triples of SEGMENT i ONLY.  Then: no panic, the answers are
+   espec_hist of the erased history (no seed, no thread, no cell, no cache), the invariant is kept.  This replaces
+   the hypothesis of C05_world_refinement / C05_entry_refinement (one hash function injective on the triples of the
+   WHOLE history across all rebuilds) by one hypothesis per lifetime, each about another function *)
+Theorem C05_world_lifetimes_refinement : forall (cfg kind dict B DFA pat MD FD lang : Type) (cfg_hash : nat -> cfg -> N) (tok_hash : nat -> list (tok kind) -> N) (fill : cfg -> cfg) (pattern_rel : dict -> text -> list (tok kind) -> cfg -> list clint) (struct_pre struct_post : dict -> cfg -> doc kind -> list clint) (spell_on : cfg -> bool) (spell_mk : text -> span -> list text -> clint) (ctx : doc kind -> clint -> N) (builder_new : nat -> B) (build : B -> text -> DFA) (sdist : dict -> text -> nat) (snorm slower : text -> text) (sfinish : dict -> text -> DFA -> DFA -> list text) (contraction_init ellipsis_init latin_init article_init wordnum_init : unit -> pat) (mut_new : unit -> MD) (fst_from : MD -> FD) (mkdict : FD -> list text -> dict) (uses_collapse : lang -> bool) (doc_body : dict -> lang -> option pat -> pat -> pat -> pat -> pat -> text -> list (list (tok kind)) * list (span * text) * N) (e : entry) (segs : list (seg cfg kind dict lang)) (w : world cfg dict B pat MD FD) (first : bool), winv cfg dict B pat MD FD builder_new contraction_init ellipsis_init latin_init article_init wordnum_init mut_new fst_from w -> (first = true -> caches_empty cfg dict (w_e w)) -> segs_hyp cfg kind dict pat MD FD lang cfg_hash tok_hash fill ctx contraction_init ellipsis_init latin_init article_init wordnum_init mut_new fst_from mkdict uses_collapse doc_body segs first (abs_of cfg dict (w_e w)) -> exists w' : world cfg dict B pat MD FD, wrun_segs cfg kind dict B DFA pat MD FD lang cfg_hash tok_hash fill pattern_rel struct_pre struct_post spell_on spell_mk ctx builder_new build sdist snorm slower sfinish contraction_init ellipsis_init latin_init article_init wordnum_init mut_new fst_from mkdict uses_collapse doc_body e segs w = Ok (w', espec_hist cfg kind dict fill pattern_rel struct_pre struct_post spell_on (suggest_pure dict B DFA builder_new build sdist snorm slower sfinish) spell_mk ctx e (segs_erase cfg kind dict pat MD FD lang ctx contraction_init ellipsis_init latin_init article_init wordnum_init mut_new fst_from mkdict uses_collapse doc_body segs (abs_of cfg dict (w_e w))) (abs_of cfg dict (w_e w))) /\ winv cfg dict B pat MD FD builder_new contraction_init ellipsis_init latin_init article_init wordnum_init mut_new fst_from w' /\ abs_of cfg dict (w_e w') = abs_after cfg kind dict ctx (segs_erase cfg kind dict pat MD FD lang ctx contraction_init ellipsis_init latin_init article_init wordnum_init mut_new fst_from mkdict uses_collapse doc_body segs (abs_of cfg dict (w_e w))) (abs_of cfg dict (w_e w)).
+Proof. exact world_lifetimes_refinement. Qed.
+Check C05_world_lifetimes_refinement : forall (cfg kind dict B DFA pat MD FD lang : Type) (cfg_hash : nat -> cfg -> N) (tok_hash : nat -> list (tok kind) -> N) (fill : cfg -> cfg) (pattern_rel : dict -> text -> list (tok kind) -> cfg -> list clint) (struct_pre struct_post : dict -> cfg -> doc kind -> list clint) (spell_on : cfg -> bool) (spell_mk : text -> span -> list text -> clint) (ctx : doc kind -> clint -> N) (builder_new : nat -> B) (build : B -> text -> DFA) (sdist : dict -> text -> nat) (snorm slower : text -> text) (sfinish : dict -> text -> DFA -> DFA -> list text) (contraction_init ellipsis_init latin_init article_init wordnum_init : unit -> pat) (mut_new : unit -> MD) (fst_from : MD -> FD) (mkdict : FD -> list text -> dict) (uses_collapse : lang -> bool) (doc_body : dict -> lang -> option pat -> pat -> pat -> pat -> pat -> text -> list (list (tok kind)) * list (span * text) * N) (e : entry) (segs : list (seg cfg kind dict lang)) (w : world cfg dict B pat MD FD) (first : bool), winv cfg dict B pat MD FD builder_new contraction_init ellipsis_init latin_init article_init wordnum_init mut_new fst_from w -> (first = true -> caches_empty cfg dict (w_e w)) -> segs_hyp cfg kind dict pat MD FD lang cfg_hash tok_hash fill ctx contraction_init ellipsis_init latin_init article_init wordnum_init mut_new fst_from mkdict uses_collapse doc_body segs first (abs_of cfg dict (w_e w)) -> exists w' : world cfg dict B pat MD FD, wrun_segs cfg kind dict B DFA pat MD FD lang cfg_hash tok_hash fill pattern_rel struct_pre struct_post spell_on spell_mk ctx builder_new build sdist snorm slower sfinish contraction_init ellipsis_init latin_init article_init wordnum_init mut_new fst_from mkdict uses_collapse doc_body e segs w = Ok (w', espec_hist cfg kind dict fill pattern_rel struct_pre struct_post spell_on (suggest_pure dict B DFA builder_new build sdist snorm slower sfinish) spell_mk ctx e (segs_erase cfg kind dict pat MD FD lang ctx contraction_init ellipsis_init latin_init article_init wordnum_init mut_new fst_from mkdict uses_collapse doc_body segs (abs_of cfg dict (w_e w))) (abs_of cfg dict (w_e w))) /\ winv cfg dict B pat MD FD builder_new contraction_init ellipsis_init latin_init article_init wordnum_init mut_new fst_from w' /\ abs_of cfg dict (w_e w') = abs_after cfg kind dict ctx (segs_erase cfg kind dict pat MD FD lang ctx contraction_init ellipsis_init latin_init article_init wordnum_init mut_new fst_from mkdict uses_collapse doc_body segs (abs_of cfg dict (w_e w))) (abs_of cfg dict (w_e w)).
+Print Assumptions C05_world_lifetimes_refinement.
+
+(* ... and that specification does not see the segmentation: it is the erasure of the flattened history *)
+Theorem C05_lifetimes_spec_is_flat : forall (cfg kind dict pat MD FD lang : Type) (ctx : doc kind -> clint -> N) (contraction_init ellipsis_init latin_init article_init wordnum_init : unit -> pat) (mut_new : unit -> MD) (fst_from : MD -> FD) (mkdict : FD -> list text -> dict) (uses_collapse : lang -> bool) (doc_body : dict -> lang -> option pat -> pat -> pat -> pat -> pat -> text -> list (list (tok kind)) * list (span * text) * N) (segs : list (seg cfg kind dict lang)) (a : astate cfg dict), segs_erase cfg kind dict pat MD FD lang ctx contraction_init ellipsis_init latin_init article_init wordnum_init mut_new fst_from mkdict uses_collapse doc_body segs a = erase cfg kind dict pat MD FD lang contraction_init ellipsis_init latin_init article_init wordnum_init mut_new fst_from mkdict uses_collapse doc_body (map snd (segs_flat cfg kind dict lang segs)) (a_dict a).
+Proof. exact segs_erase_flat. Qed.
+Check C05_lifetimes_spec_is_flat : forall (cfg kind dict pat MD FD lang : Type) (ctx : doc kind -> clint -> N) (contraction_init ellipsis_init latin_init article_init wordnum_init : unit -> pat) (mut_new : unit -> MD) (fst_from : MD -> FD) (mkdict : FD -> list text -> dict) (uses_collapse : lang -> bool) (doc_body : dict -> lang -> option pat -> pat -> pat -> pat -> pat -> text -> list (list (tok kind)) * list (span * text) * N) (segs : list (seg cfg kind dict lang)) (a : astate cfg dict), segs_erase cfg kind dict pat MD FD lang ctx contraction_init ellipsis_init latin_init article_init wordnum_init mut_new fst_from mkdict uses_collapse doc_body segs a = erase cfg kind dict pat MD FD lang contraction_init ellipsis_init latin_init article_init wordnum_init mut_new fst_from mkdict uses_collapse doc_body (map snd (segs_flat cfg kind dict lang segs)) (a_dict a).
+Print Assumptions C05_lifetimes_spec_is_flat.
+
+(* ---------- phase 5: edit_distance_min_alloc never panics (Proofs/C05EdProofs.v) ---------- *)
+(* whatever the two thread-local buffers hold: below the threshold every cell of row j is <= max(i, j) <= 254, so no
+   checked u8 addition overflows and every index is in bounds; the result fits a u8 and is at most the longer length *)
+Theorem C05_edit_distance_total : forall (src tgt : text) (prev cur : list N), exists (d : N) (bufs : list N * list N), ed_min_alloc src tgt prev cur = Ok (d, bufs) /\ (d <= 255)%N /\ (length src <= 254 -> length tgt <= 254 -> (d <= N.of_nat (Nat.max (length src) (length tgt)))%N).
+Proof. exact ed_min_alloc_total. Qed.
+Check C05_edit_distance_total : forall (src tgt : text) (prev cur : list N), exists (d : N) (bufs : list N * list N), ed_min_alloc src tgt prev cur = Ok (d, bufs) /\ (d <= 255)%N /\ (length src <= 254 -> length tgt <= 254 -> (d <= N.of_nat (Nat.max (length src) (length tgt)))%N).
+Print Assumptions C05_edit_distance_total.
+
+(* with C05_edit_distance_buffers_unobservable: the distance is a function of (source, target) *)
+Theorem C05_edit_distance_function : forall (src tgt : text) (p1 c1 p2 c2 : list N), exists (d : N) (b1 b2 : list N * list N), ed_min_alloc src tgt p1 c1 = Ok (d, b1) /\ ed_min_alloc src tgt p2 c2 = Ok (d, b2).
+Proof. exact ed_distance_function. Qed.
+Check C05_edit_distance_function : forall (src tgt : text) (p1 c1 p2 c2 : list N), exists (d : N) (b1 b2 : list N * list N), ed_min_alloc src tgt p1 c1 = Ok (d, b1) /\ ed_min_alloc src tgt p2 c2 = Ok (d, b2).
+Print Assumptions C05_edit_distance_function.
+
+(* WithinEditDistance::matches never panics and does not depend on the thread's BUFFERS *)
+Theorem C05_within_edit_distance_function : forall (content word : text) (k : N) (b1 b2 : list N * list N), exists (r : nat) (b1' b2' : list N * list N), wed_matches content word k b1 = Ok (r, b1') /\ wed_matches content word k b2 = Ok (r, b2').
+Proof. exact wed_matches_function. Qed.
+Check C05_within_edit_distance_function : forall (content word : text) (k : N) (b1 b2 : list N * list N), exists (r : nat) (b1' b2' : list N * list N), wed_matches content word k b1 = Ok (r, b1') /\ wed_matches content word k b2 = Ok (r, b2').
+Print Assumptions C05_within_edit_distance_function.
+
+(* non-vacuity of the lifetime theorems: the eleven operations of C05_world_nonvacuous (handed round five threads of a
+   warm process) cut at the two rebuilds into three lifetimes with seeds 0, 1, 2, where the configuration hash of the
+   seeds 1 and 2 maps EVERY configuration to 0: the per-lifetime hypotheses hold (each of these lifetimes sees one
+   effective configuration), the per-history hypothesis of C05_world_refinement does NOT hold for the hash of seed 1
+   (lifetime 0 uses two configurations), and the run answers the specification of the flat history *)
+Example C05_lifetimes_nonvacuous :
+  ew_inv ew_world_b /\ el_hyp el_segs true (mkastate 0%N 0%N []) /\
+  (exists x y, In x (ehist_triples N N N ee_fill (ew_erase (map snd ew_hist_b) 0%N) 0%N) /\
+               In y (ehist_triples N N N ee_fill (ew_erase (map snd ew_hist_b) 0%N) 0%N) /\
+               el_cfg_hash 1 (snd x) = el_cfg_hash 1 (snd y) /\ snd x <> snd y) /\
+  segs_flat N N N N el_segs = ew_hist_b /\
+  (forall e, match el_run e el_segs ew_world_b with
+             | Ok (_, outs) => outs = ew_spec e (ew_erase (map snd ew_hist_b) 0%N) (mkastate 0%N 0%N []) /\
+                               outs = ew_spec e (el_erase el_segs (mkastate 0%N 0%N [])) (mkastate 0%N 0%N [])
+             | Panic _ => False end) /\
+  ew_outs (el_run Wasm el_segs ew_world_b) =
+    [[(0, 2, 5%N); (4, 6, 3%N); (11, 12, 7%N); (14, 16, 3%N)];
+     [(0, 2, 5%N); (4, 6, 3%N); (14, 16, 3%N)];
+     [(0, 2, 5%N); (4, 6, 3%N); (14, 16, 3%N)];
+     [(0, 2, 5%N); (4, 6, 3%N); (14, 16, 3%N)];
+     [(0, 2, 5%N); (4, 6, 3%N); (11, 12, 7%N); (14, 16, 3%N)]].
+Proof.
+  split; [|split; [|split; [|split; [|split]]]].
+  - split; [split; right; reflexivity|].
+    constructor; [|constructor; [|constructor]]; cbn; unfold tinv, cell_ok; cbn;
+      repeat split; try (left; reflexivity); try (right; reflexivity); repeat constructor.
+  - unfold el_hyp, el_segs. cbn [segs_hyp].
+    repeat match goal with |- _ /\ _ => split end;
+      try (left; reflexivity); try (right; reflexivity); try exact I;
+      try (vm_compute; repeat split; try (eexists; reflexivity); fail);
+      try (intros x y Hx Hy; vm_compute in Hx, Hy;
+           repeat (destruct Hx as [Hx|Hx]; [subst x|]); try destruct Hx;
+           repeat (destruct Hy as [Hy|Hy]; [subst y|]); try destruct Hy; vm_compute; intros E; try reflexivity; discriminate E).
+  - exists (nth 0 (ehist_triples N N N ee_fill (ew_erase (map snd ew_hist_b) 0%N) 0%N) ([], [], 0%N)),
+           (nth 4 (ehist_triples N N N ee_fill (ew_erase (map snd ew_hist_b) 0%N) 0%N) ([], [], 0%N)).
+    split; [vm_compute; left; reflexivity|]. split; [vm_compute; do 4 right; left; reflexivity|].
+    split; [reflexivity|]. vm_compute. discriminate.
+  - reflexivity.
+  - intros []; vm_compute; split; reflexivity.
+  - vm_compute. reflexivity.
+Qed.
+
+(* non-vacuity of the totality theorem: 254 x 'a' against 254 x 'b' — the largest distance the u8 rows can be asked
+   for — is computed as 254 with garbage (255s) in the buffers; one character more takes the long path *)
+Example C05_edit_distance_total_nonvacuous :
+  (match ed_min_alloc (repeat 97%N 254) (repeat 98%N 254) (repeat 255%N 300) (repeat 255%N 7) with Ok (d, _) => d | Panic _ => 0%N end) = 254%N /\
+  (match ed_min_alloc (repeat 97%N 255) (repeat 98%N 254) [255%N] [] with Ok (d, b) => (d, b) | Panic _ => (0%N, ([], [])) end) = (255%N, ([255%N], [])).
+Proof. split; vm_compute; reflexivity. Qed.
+
+(* the generated table: the hash state is per LintGroup instance (tools/tables/c05statics.py raises otherwise) *)
+Theorem C05_lifetime_table : c05_hasher_per_instance = true /\ c05_hasher_uses = 2.
+Proof. exact (conj eq_refl eq_refl). Qed.
+Check C05_lifetime_table : c05_hasher_per_instance = true /\ c05_hasher_uses = 2.
+Print Assumptions C05_lifetime_table.
